@@ -95,6 +95,13 @@ def run(F, cfg, inp):
         routes['raw_hex'] = y
         if not shape:
             routes['from_bin_raw'] = mk().from_bin(x.bin(), raw=True)
+    if shape and cfg['mode'] == 'value':
+        lst = list(x.bin(prefix='0b')) if len(shape) == 1 else [list(r) for r in x.bin(prefix='0b')]
+        first = F.Fxp(lst, s, n, f)
+        y = mk()
+        y.set_val(lst, raw=True)                  # the caller's list again, this time as codes: it must still hold the strings
+        routes['same_list_value_then_raw'] = y
+        routes['same_list_first_use'] = first
     ob['routes'] = {k_: O.snap(v.val) for k_, v in routes.items()}
     return ob
 
